@@ -67,8 +67,42 @@ fn bytes_key_strategy() -> BoxedStrategy<Vec<Vec<u8>>> {
         .boxed()
 }
 
+/// families with very long keys (the key record's size field grows to three bytes at 128 KiB)
+fn long_key_family() -> BoxedStrategy<Vec<Vec<u8>>> {
+    (proptest::sample::select(vec![65536usize, 131000, 131072, 200000]), 0u32..50)
+        .prop_map(|(len, seed)| {
+            let base = pattern_bytes(len, seed);
+            let mut out = vec![base.clone(), base[..len - 1].to_vec(), base[..len / 2].to_vec(), b"short".to_vec()];
+            let mut z = base.clone();
+            z.push(0);
+            out.push(z);
+            out.sort();
+            out.dedup();
+            out
+        })
+        .boxed()
+}
+
 fn strategy(tier: Tier, index: u64) -> BoxedStrategy<C10Case> {
     let n_pairs = tier.pick(400usize, 1000);
+    if index % 200 == 7 {
+        // thousands of integer keys in a one-bucket table
+        return (
+            proptest::sample::select(vec![Kt::U64, Kt::I64, Kt::Vu64]),
+            proptest::collection::vec(pair_strategy(), 4300..=4700),
+        )
+            .prop_map(|(kt, ps)| {
+                let xs: Vec<u64> = ps.iter().map(|p| p.0).collect();
+                let ys: Vec<u64> = ps.iter().take(200).map(|p| p.1).collect();
+                C10Case::Map { kt, buckets: Buckets::BucketsSize(1), xs, ys }
+            })
+            .boxed();
+    }
+    if index % 50 == 11 {
+        return (proptest::sample::select(vec![Kt::Bytes, Kt::String]), long_key_family())
+            .prop_map(|(kt, keys)| C10Case::Bytes { kt, keys })
+            .boxed();
+    }
     match index % 4 {
         0 | 1 => proptest::collection::vec(pair_strategy(), n_pairs..=n_pairs)
             .prop_map(C10Case::Ints)
@@ -100,6 +134,9 @@ macro_rules! bail {
 
 fn check_ints(ps: &[(u64, u64)], rep: &mut Report) -> Result<(), Failure> {
     for &(x, y) in ps {
+        if x & 0x3f == 0 {
+            crate::exec::tick();
+        }
         // u64
         {
             let kx = DbU64::from(x);
